@@ -21,6 +21,7 @@ INVARIANT J_ShiftEnd
 INVARIANT J_Capacity
 INVARIANT J_Skills
 INVARIANT J_LimitDistance
+INVARIANT J_RechargeDistance
 INVARIANT J_LimitDuration
 INVARIANT J_LimitTourSize
 INVARIANT J_Groups
